@@ -38,6 +38,7 @@ import (
 	"github.com/openconfig/gnmi/client"
 	fclient "github.com/openconfig/gnmi/client/fake"
 	gclient "github.com/openconfig/gnmi/client/gnmi"
+	"github.com/openconfig/gnmi/errlist"
 	gpb "github.com/openconfig/gnmi/proto/gnmi"
 
 	"verif/internal/vlib"
@@ -73,9 +74,14 @@ type msgSpec struct {
 }
 
 type attemptSpec struct {
-	Kind string    `json:"kind"` // failnew, failsub, err, eof, block
-	Msgs []msgSpec `json:"msgs,omitempty"`
-	EOF  string    `json:"eof,omitempty"` // scripted transport: io.EOF or ErrStopReading
+	Kind string `json:"kind"` // failnew, failsub, err, eof, block
+	// failnew / failsub: shape of the error value the transport reports:
+	// plain, errlist2, errlist3 (errlist.List with 2-3 causes via Err()), slice2
+	// (an error whose type is a []error), empty-errors / empty-slice (aggregate
+	// shapes holding no cause), joined (errors.Join).
+	Shape string    `json:"error_shape,omitempty"`
+	Msgs  []msgSpec `json:"msgs,omitempty"`
+	EOF   string    `json:"eof,omitempty"` // scripted transport: io.EOF or ErrStopReading
 }
 
 type position struct {
@@ -90,19 +96,22 @@ type position struct {
 }
 
 type caseSpec struct {
-	Wrapper       string        `json:"wrapper"`   // rc-base, rc-cache, base, cache
-	Transport     string        `json:"transport"` // scripted, fake, gnmi
-	Script        []attemptSpec `json:"script"`
-	Pos           position      `json:"close_position"`
-	Action        string        `json:"action"`               // close, cancel (cancel the Subscribe context, then Close)
-	ReleaseUS     int           `json:"release_us"`           // delay between "Close entered" and un-parking (-1: Gosched)
-	ReleaseAt     string        `json:"release_at"`           // entered | returned (bare clients only)
-	Buffered      int           `json:"buffered"`             // messages still delivered after the transport saw cancel/Close; -1: all (only a blocking read notices)
-	LaxConnect    bool          `json:"lax_connect"`          // New/Subscribe of the transport ignore an already cancelled context
-	Hold          bool          `json:"hold"`                 // at the first sight of cancel/Close wait (<= 30 ms) for Close to return before delivering buffered messages
-	CloserDelayUS int           `json:"closer_delay_us"`      // non-parking positions: delay between reaching the position and calling Close
-	Resub         int           `json:"resubscribes"`         // bare clients: Subscribe calls on the same client object that ended by themselves before the one Close is aimed at
-	CtxParent     string        `json:"ctx_parent,omitempty"` // ctx-hook: what the caller's custom context wraps (background | cancellable)
+	Wrapper   string        `json:"wrapper"`   // rc-base, rc-cache, base, cache
+	Transport string        `json:"transport"` // scripted, fake, gnmi
+	Script    []attemptSpec `json:"script"`
+	Pos       position      `json:"close_position"`
+	Action    string        `json:"action"` // close, cancel (cancel the Subscribe context, then Close)
+	// Action deadline: the Subscribe context carries a deadline (0 = already
+	// expired when Subscribe is called); Close is called after Subscribe returned.
+	DeadlineMS    int    `json:"deadline_ms,omitempty"`
+	ReleaseUS     int    `json:"release_us"`           // delay between "Close entered" and un-parking (-1: Gosched)
+	ReleaseAt     string `json:"release_at"`           // entered | returned (bare clients only)
+	Buffered      int    `json:"buffered"`             // messages still delivered after the transport saw cancel/Close; -1: all (only a blocking read notices)
+	LaxConnect    bool   `json:"lax_connect"`          // New/Subscribe of the transport ignore an already cancelled context
+	Hold          bool   `json:"hold"`                 // at the first sight of cancel/Close wait (<= 30 ms) for Close to return before delivering buffered messages
+	CloserDelayUS int    `json:"closer_delay_us"`      // non-parking positions: delay between reaching the position and calling Close
+	Resub         int    `json:"resubscribes"`         // bare clients: Subscribe calls on the same client object that ended by themselves before the one Close is aimed at
+	CtxParent     string `json:"ctx_parent,omitempty"` // ctx-hook: what the caller's custom context wraps (background | cancellable)
 }
 
 func (s *caseSpec) rc() bool { return strings.HasPrefix(s.Wrapper, "rc-") }
@@ -119,6 +128,41 @@ type combo struct {
 	PosJ                        int // after-msg: 0 first, 1 middle, 2 last; before: 0 Close returned first, 1 concurrent
 	Kind                        string
 	A                           int
+}
+
+var errShapes = []string{"errlist2", "errlist3", "slice2", "empty-errors", "empty-slice", "joined"}
+
+// sliceErr is an error whose type is a []error (errlist treats it specially).
+type sliceErr []error
+
+func (s sliceErr) Error() string { return fmt.Sprintf("c18: %d scripted failures", len(s)) }
+
+// emptyErrs is an aggregate error that reports no individual causes.
+type emptyErrs struct{}
+
+func (emptyErrs) Error() string   { return "c18: scripted aggregate failure without causes" }
+func (emptyErrs) Errors() []error { return nil }
+
+func shapedErr(shape string) error {
+	e := func(i int) error { return fmt.Errorf("c18: scripted failure of subscription %d", i) }
+	switch shape {
+	case "errlist2", "errlist3":
+		var l errlist.List
+		l.Add(e(1), e(2))
+		if shape == "errlist3" {
+			l.Add(e(3))
+		}
+		return l.Err()
+	case "slice2":
+		return sliceErr{e(1), e(2)}
+	case "empty-errors":
+		return emptyErrs{}
+	case "empty-slice":
+		return sliceErr{}
+	case "joined":
+		return errors.Join(e(1), e(2))
+	}
+	return errScripted
 }
 
 var (
@@ -214,6 +258,26 @@ func combos() []combo {
 			}
 		}
 	}
+	// Round 2: connect failures reported as aggregated / unusual error values,
+	// and Subscribe contexts that end by deadline.
+	for _, w := range []string{"rc-base", "rc-cache", "base", "cache"} {
+		rc := strings.HasPrefix(w, "rc-")
+		for _, t := range []string{"scripted", "fake", "gnmi"} {
+			for _, k := range []string{"failnew", "failsub"} {
+				for _, sh := range errShapes {
+					if rc {
+						// Close only after the failed attempt ended: the retry must come.
+						out = append(out, combo{w, t, "at-disconnect", 0, k + "+" + sh, 0})
+					} else {
+						out = append(out, combo{w, t, "attempt-start", 0, k + "+" + sh, 0})
+					}
+				}
+			}
+			for _, k := range allKinds {
+				out = append(out, combo{w, t, "deadline", 0, k, 0})
+			}
+		}
+	}
 	return out
 }
 
@@ -243,8 +307,16 @@ func genMsgs(rng *rand.Rand, transport string, k int) []msgSpec {
 }
 
 func genAttempt(rng *rand.Rand, transport, kind string, k int) attemptSpec {
+	shape := ""
+	if i := strings.IndexByte(kind, '+'); i >= 0 {
+		kind, shape = kind[:i], kind[i+1:]
+	}
 	a := attemptSpec{Kind: kind}
 	if kind == "failnew" || kind == "failsub" {
+		a.Shape = shape
+		if shape == "" && rng.Intn(3) == 0 {
+			a.Shape = errShapes[rng.Intn(len(errShapes))]
+		}
 		return a
 	}
 	a.Msgs = genMsgs(rng, transport, k)
@@ -269,6 +341,14 @@ func genCase(cbs []combo, trial int, rng *rand.Rand) caseSpec {
 	}
 	if cb.PosKind == "ctx-hook" {
 		a = 0
+	}
+	if cb.PosKind == "deadline" {
+		// The deadline lands by timing: earlier attempts (and their backoffs)
+		// shift it into connect, streaming, blocked reads or a backoff sleep.
+		a = rng.Intn(3)
+		if !rc {
+			a = 0
+		}
 	}
 	if cb.PosKind == "prev-impl-close" && a == 0 {
 		a = 1
@@ -313,6 +393,13 @@ func genCase(cbs []combo, trial int, rng *rand.Rand) caseSpec {
 		s.Action = "cancel"
 	}
 	s.ReleaseUS = []int{0, -1, 100, 500, 500, 2000, 2000}[rng.Intn(7)]
+	if cb.PosKind == "deadline" {
+		s.Action = "deadline"
+		s.DeadlineMS = 20 + rng.Intn(181)
+		if rng.Intn(8) == 0 {
+			s.DeadlineMS = 0
+		}
+	}
 	if cb.PosKind == "ctx-hook" {
 		s.ReleaseUS = []int{0, -1, 100, 500, 2000, 5000}[rng.Intn(6)]
 		s.CtxParent = "cancellable"
@@ -426,6 +513,8 @@ type kase struct {
 	subCalls           int
 	subRets            int
 	latest             *impl
+	ended              map[int]bool // attempts whose transport reported failure / end of stream
+	subCtx             context.Context
 	closeCalled        bool
 	closeRet           bool // an effective Close has returned
 	cancelCall         bool
@@ -482,7 +571,7 @@ func (c *kase) record(kind, what string) int {
 		c.subRets++
 		c.subRet = c.subRets == c.spec.Resub+1
 		if rc {
-			if !c.closeCalled && !c.cancelCall {
+			if !c.closeCalled && !c.cancelCall && !(c.subCtx != nil && c.subCtx.Err() != nil) {
 				c.bad("subscribe-returned-unclosed", fmt.Sprintf("Subscribe of a ReconnectClient returned (%s) although neither Close was called nor its context cancelled: the client stopped resubscribing", what))
 			}
 			if c.discs < c.attempts {
@@ -685,6 +774,15 @@ func notifString(n client.Notification) string {
 	}
 }
 
+// attemptEnded: the transport of attempt a reported a failure or the end of
+// its stream to the client (New / Subscribe / Recv returned an error).
+func (c *kase) attemptEnded(a int, where string, err error) {
+	c.record("attempt-end", where+": "+errString(err))
+	c.mu.Lock()
+	c.ended[a] = true
+	c.mu.Unlock()
+}
+
 func (c *kase) handler(n client.Notification) error {
 	c.record("notif", notifString(n))
 	return nil
@@ -779,15 +877,20 @@ type impl struct {
 	g   *gclient.Client
 }
 
-func (c *kase) newImpl(ctx context.Context, d client.Destination) (client.Impl, error) {
+func (c *kase) newImpl(ctx context.Context, d client.Destination) (_ client.Impl, err error) {
 	a := c.record("attempt", "")
+	defer func() {
+		if err != nil {
+			c.attemptEnded(a, "New", err)
+		}
+	}()
 	w := &impl{c: c, a: a, at: c.spec.attempt(a), ctx: ctx, closedCh: make(chan struct{}), budget: c.spec.Buffered}
 	c.mu.Lock()
 	c.latest = w
 	c.mu.Unlock()
 	c.at("attempt-start", a, 0, true)
 	if w.at.Kind == "failnew" {
-		return nil, errScripted
+		return nil, shapedErr(w.at.Shape)
 	}
 	if !c.spec.LaxConnect && ctx.Err() != nil {
 		return nil, ctx.Err() // a dial with a cancelled context fails
@@ -839,10 +942,15 @@ func (w *impl) cancelErr() error {
 	return errClosed
 }
 
-func (w *impl) Subscribe(ctx context.Context, q client.Query) error {
+func (w *impl) Subscribe(ctx context.Context, q client.Query) (err error) {
+	defer func() {
+		if err != nil {
+			w.c.attemptEnded(w.a, "Subscribe", err)
+		}
+	}()
 	w.c.at("in-subscribe", w.a, 0, true)
 	if w.at.Kind == "failsub" {
-		return errScripted
+		return shapedErr(w.at.Shape)
 	}
 	if !w.c.spec.LaxConnect && (ctx.Err() != nil || w.isClosed()) {
 		if err := ctx.Err(); err != nil {
@@ -860,7 +968,12 @@ func (w *impl) Subscribe(ctx context.Context, q client.Query) error {
 	return nil
 }
 
-func (w *impl) Recv() error {
+func (w *impl) Recv() (err error) {
+	defer func() {
+		if err != nil {
+			w.c.attemptEnded(w.a, "Recv", err)
+		}
+	}()
 	c := w.c
 	idx := w.recvIdx
 	w.recvIdx++
@@ -1044,7 +1157,7 @@ func (c *kase) kinds() string {
 
 func runCase(r *vlib.Run, trial int, spec caseSpec) {
 	c := &kase{r: r, trial: trial, spec: spec, typ: fmt.Sprintf("c18-%d", trial), start: time.Now(),
-		expMsgs: map[int][][]string{}, expFlat: map[int][]string{}, delivered: map[int]int{}, afterClose: map[int]bool{},
+		expMsgs: map[int][][]string{}, expFlat: map[int][]string{}, ended: map[int]bool{}, delivered: map[int]int{}, afterClose: map[int]bool{},
 		abort: make(chan struct{}), closeReturned: make(chan struct{}), subDone: make(chan struct{}), closerDone: make(chan struct{})}
 	c.lastEvent, c.lastBeat = c.start, atomic.LoadInt64(&heartbeat)
 	if err := client.Register(c.typ, c.newImpl); err != nil {
@@ -1087,6 +1200,21 @@ func runCase(r *vlib.Run, trial int, spec caseSpec) {
 		}
 		subCtx = &hookCtx{Context: parent, c: c}
 	}
+	if spec.Action == "deadline" {
+		var dcancel context.CancelFunc
+		if spec.DeadlineMS == 0 {
+			subCtx, dcancel = context.WithDeadline(ctx, time.Now().Add(-time.Second))
+		} else {
+			subCtx, dcancel = context.WithTimeout(ctx, time.Duration(spec.DeadlineMS)*time.Millisecond)
+		}
+		defer dcancel()
+	}
+	c.mu.Lock()
+	c.subCtx = subCtx
+	if h, ok := subCtx.(*hookCtx); ok {
+		c.subCtx = h.Context // the monitor must not run the hook
+	}
+	c.mu.Unlock()
 	q := client.Query{Addrs: []string{"c18"}, Target: "t", Queries: []client.Path{{"*"}}, Type: client.Stream, NotificationHandler: c.handler}
 
 	panicked := func(where string) {
@@ -1137,6 +1265,26 @@ func runCase(r *vlib.Run, trial int, spec caseSpec) {
 		defer close(c.closerDone)
 		defer firstOnce.Do(func() { close(firstCloseDone) })
 		g := g0
+		if spec.Action == "deadline" {
+			// The Subscribe context ends by itself; after that Subscribe must
+			// return, and a following Close must return.
+			select {
+			case <-subCtx.Done():
+			case <-c.abort:
+				return
+			}
+			c.record("cancel-call", "deadline exceeded")
+			select {
+			case <-c.subDone:
+			case <-c.abort:
+				return
+			}
+			c.record("close-call", "")
+			err := doClose()
+			c.record("close-ret", errString(err))
+			c.closeRetOnce.Do(func() { close(c.closeReturned) })
+			return
+		}
 		for round := 0; round < 2; round++ {
 			select {
 			case <-g.trig:
@@ -1275,7 +1423,7 @@ func (c *kase) judgeStuck() {
 	var awaited []string
 	switch {
 	case c.cancelCall && !c.subRet:
-		sig, what = "subscribe-never-returns", "Subscribe has not returned although its context was cancelled"
+		sig, what = "subscribe-never-returns", "Subscribe has not returned although its context has ended (cancelled, or deadline passed)"
 		awaited = []string{"client.(*ReconnectClient).Subscribe", "client.(*BaseClient).Subscribe", "client.(*BaseClient).run"}
 	case c.closeOutstanding:
 		sig, what = "close-never-returns", "Close has not returned"
@@ -1286,6 +1434,12 @@ func (c *kase) judgeStuck() {
 	case rc && !c.closeCalled && c.subCalled && !c.subRet && (c.state == stDisc || c.state == stReset):
 		sig, what = "retry-stopped", "an ended attempt of a ReconnectClient that was not closed was not followed by another attempt"
 		awaited = []string{"client.(*ReconnectClient).Subscribe"}
+	case rc && !c.closeCalled && c.subCalled && !c.subRet && c.state == stAttempt && c.ended[c.attempts-1]:
+		sig, what = "retry-stopped", fmt.Sprintf("the transport of attempt %d reported its failure / the end of its stream to the client, but the ReconnectClient (not closed) neither called disconnect nor started another attempt", c.attempts-1)
+		awaited = []string{"client.(*ReconnectClient).Subscribe"}
+	case !rc && c.subCalled && !c.subRet && c.attempts > 0 && c.ended[c.attempts-1]:
+		sig, what = "subscribe-never-returns", fmt.Sprintf("the transport of attempt %d reported its failure / the end of its stream to the client, but Subscribe has not returned", c.attempts-1)
+		awaited = []string{"client.(*BaseClient).Subscribe", "client.(*BaseClient).run", "client.getFirst"}
 	}
 	found := false
 	for _, a := range awaited {
@@ -1313,7 +1467,7 @@ func (c *kase) judgeStuck() {
 				after++
 			}
 		}
-		c.viol = append(c.viol, violation{sig, fmt.Sprintf("%s within %v (1000 x RetryMaxDelay); %d new attempt(s) were started after the call; the scripted transport is not holding anything (its reads return on context cancellation and on Close). Goroutine dump in the witness.", what, grace, after)})
+		c.viol = append(c.viol, violation{sig, fmt.Sprintf("%s within %v (1000 x RetryMaxDelay); %d new attempt(s) were started after Close / the end of the context; the scripted transport is not holding anything (its reads return on context cancellation and on Close). Goroutine dump in the witness.", what, grace, after)})
 		c.events = append(c.events, event{Tick: atomic.AddInt64(&globalTick, 1), AtUS: time.Since(c.start).Microseconds(), Kind: "watchdog", What: dump})
 	}
 }
@@ -1420,6 +1574,9 @@ func (c *kase) finish(stuck bool) {
 			r.Count("window_close_during_backoff_sleep", 1)
 		}
 		r.Count("close_called_while_"+strings.ReplaceAll(stName[c.closeState], " ", "_"), 1)
+		if c.spec.Action == "deadline" {
+			r.Count("deadline_passed_while_"+strings.ReplaceAll(stName[c.closeState], " ", "_"), 1)
+		}
 	}
 	if c.closeRet {
 		r.Count(fmt.Sprintf("oracle_after_close_messages_%d", len(c.afterClose)), 1)
@@ -1491,8 +1648,8 @@ func body(r *vlib.Run) {
 
 func postMerge(tier string, counters map[string]int64) []string {
 	var out []string
-	for _, k := range []string{"never-subscribed", "before", "timed", "ctx-hook", "prev-impl-close", "attempt-start", "in-subscribe", "after-msg", "blocked", "at-disconnect", "in-backoff", "after-reset"} {
-		if k == "never-subscribed" || k == "before" || k == "timed" {
+	for _, k := range []string{"never-subscribed", "before", "timed", "deadline", "ctx-hook", "prev-impl-close", "attempt-start", "in-subscribe", "after-msg", "blocked", "at-disconnect", "in-backoff", "after-reset"} {
+		if k == "never-subscribed" || k == "before" || k == "timed" || k == "deadline" {
 			if counters["cases_position_"+k] == 0 {
 				out = append(out, "Close position "+k+" was never exercised")
 			}
@@ -1514,7 +1671,7 @@ func postMerge(tier string, counters map[string]int64) []string {
 func main() {
 	vlib.Main(&vlib.Spec{
 		ID:   "C18",
-		Rule: "Each case: the real BaseClient / CacheClient, bare or wrapped in the real ReconnectClient (disconnect and reset callbacks recorded), over a scripted client.Impl registered under its own type name; the Impl wraps one of three transports (purely scripted; the repository's client/fake Client; the real client/gnmi Client via NewFromConn against a scripted bufconn gNMI server) and plays a per-attempt script: fail in New / fail in Subscribe / deliver k numbered messages (1-3 notifications each; updates, deletes, syncs on gnmi) then error / EOF (io.EOF or ErrStopReading) / block. The transport is well-behaved (blocking reads return on context cancellation and on Close) and differs by seed in how many already received messages it still hands over after cancel/Close (0-3, or all). Close (1 in 7: cancellation of the Subscribe context, then Close) is issued from another goroutine at a FORCED position (the Impl or callback parks there until the harness has entered Close): never subscribed, before Subscribe (sequential / concurrent), unforced after a seeded delay (timed), attempt start, inside Impl.Subscribe, after the j-th message (first / middle / last), in a blocked read, inside the disconnect callback, during the backoff sleep, right after reset, inside the previous Impl's Close while the client re-subscribes, inside a method of a caller-provided custom context while Subscribe derives its own context (Close started there on another goroutine, never awaited there). Bare clients are also re-subscribed on the same object (1-2 earlier Subscribe calls that ended cleanly or with an error) before the Subscribe Close is aimed at. The quick tier enumerates every wrapper x transport x position x outcome kind (x first / second attempt) once, seeded random scripts (up to 7 attempts) beyond. A case is distinct non-trivial when Close or cancel was issued and both returns were observed, by the hash of its description and its event-kind trace.",
+		Rule: "Each case: the real BaseClient / CacheClient, bare or wrapped in the real ReconnectClient (disconnect and reset callbacks recorded), over a scripted client.Impl registered under its own type name; the Impl wraps one of three transports (purely scripted; the repository's client/fake Client; the real client/gnmi Client via NewFromConn against a scripted bufconn gNMI server) and plays a per-attempt script: fail in New / fail in Subscribe / deliver k numbered messages (1-3 notifications each; updates, deletes, syncs on gnmi) then error / EOF (io.EOF or ErrStopReading) / block. The transport is well-behaved (blocking reads return on context cancellation and on Close) and differs by seed in how many already received messages it still hands over after cancel/Close (0-3, or all). Close (1 in 7: cancellation of the Subscribe context, then Close) is issued from another goroutine at a FORCED position (the Impl or callback parks there until the harness has entered Close): never subscribed, before Subscribe (sequential / concurrent), unforced after a seeded delay (timed), attempt start, inside Impl.Subscribe, after the j-th message (first / middle / last), in a blocked read, inside the disconnect callback, during the backoff sleep, right after reset, inside the previous Impl's Close while the client re-subscribes, inside a method of a caller-provided custom context while Subscribe derives its own context (Close started there on another goroutine, never awaited there). Failures in New / Subscribe are reported as plain errors or, by seed, as aggregated / unusual error values (errlist.List with 2-3 causes, an error that is a []error, aggregates without causes, errors.Join). Besides explicit cancellation the Subscribe context may end by a 20-200 ms (or already expired) deadline that lands by timing in connect, streaming, a blocked read or a backoff sleep; Subscribe must then return and a following Close must return. Bare clients are also re-subscribed on the same object (1-2 earlier Subscribe calls that ended cleanly or with an error) before the Subscribe Close is aimed at. The quick tier enumerates every wrapper x transport x position x outcome kind (x first / second attempt) once, seeded random scripts (up to 7 attempts) beyond. A case is distinct non-trivial when Close or cancel was issued and both returns were observed, by the hash of its description and its event-kind trace.",
 		Assumptions: []string{
 			"client.RetryBaseDelay/RetryMaxDelay are set to 10/20 ms before any ReconnectClient is created; the first backoff of each client still comes from the backoff library's 500 ms default (250-750 ms) and is tolerated",
 			"termination is restated as bounded progress: a violation only when a call is still pending 20 s (1000 x RetryMaxDelay) after Close/cancel was issued, or no event at all was recorded for 20 s (after Close/cancel, or after an ended attempt of an unclosed client), AND the process heartbeat kept running in that window AND the goroutine dump shows the awaited call; otherwise inconclusive. The statement's 'within the current backoff interval' is only reported as latency histograms (close_to_*_return_*)",
